@@ -320,6 +320,31 @@ pub fn run(rep: &mut Report, backend: Bk, thorough: bool) {
                 ),
             }
         }
+        // a member of the file's epoch that is removed afterwards (and has processed its removal) keeps the file it was sent
+        {
+            let b = l.b.fork();
+            let announced = matches!(b.process(&announce), Ok(MessageProcessingResult::ApplicationMessage(_)));
+            for c in &commits {
+                let _ = b.process(c);
+            }
+            let a2 = l.a.fork();
+            if let Ok(r) = with_mdk!(a2, m => m.remove_members(&l.gid, &[b.pk()])) {
+                let res = b.process(&r.evolution_event);
+                let evicted = b.group_obs(&l.gid).map(|o| o.record_state != "active").unwrap_or(true);
+                rep.case(&format!("history|removed-member|k={k}|announced={announced}|evicted={evicted}|{}", result_kind(&res)));
+                if announced && evicted {
+                    match dec(&b, &l.gid, &up.encrypted_data, &reference) {
+                        Ok(pl) if pl == data => {}
+                        Ok(_) => rep.finding("C17|removed-member-decrypts-different-bytes".into(), format!("k={k}: different bytes"), json!({"k": k})),
+                        Err(e) => rep.finding(
+                            "C17|member-of-the-files-epoch-cannot-decrypt-after-its-removal".into(),
+                            format!("a member that received the file, followed {k} commits and was then removed cannot decrypt the file any more: {e:?}"),
+                            json!({"epochs_later": k, "backend": format!("{backend:?}")}),
+                        ),
+                    }
+                }
+            }
+        }
         // non-member never
         if dec(&l.n, &l.gid, &up.encrypted_data, &reference).is_ok() {
             rep.finding("C17|non-member-decrypts-later".into(), "non-member decrypts".into(), json!({"k": k}));
